@@ -4,6 +4,8 @@ From Coq Require Import ZArith List Bool.
 From QV Require Import Base.ZQ Base.FL QTools.Types QTools.Ops QTools.MulThm QTools.AccThm.
 From QVGen Require Import QToolsOps.
 From QV Require Import Link.QToolsLink.
+From QVGen Require Import MergeGen.
+From QV Require Import Link.MergeLink.
 Open Scope Z_scope.
 Import ListNotations.
 
@@ -116,3 +118,33 @@ Print Assumptions C17_source_rules_are_the_model.
 Theorem C17_source_get_exp : forall t, gen_get_exp t = get_exp t.
 Proof. exact link_get_exp. Qed.
 Print Assumptions C17_source_get_exp.
+
+(* ---- merge layers as /repo has them now (coq/gen/MergeGen.v, regenerated from merge_factory.py on every run) ---- *)
+Theorem C17_source_merge_translation_ok : merge_translation_ok = true.
+Proof. exact link_merge_ok. Qed.
+Theorem C17_source_merge_add_is_the_model : forall qs, gen_merge_add qs = merge_add qs.
+Proof. exact link_merge_add. Qed.
+Print Assumptions C17_source_merge_add_is_the_model.
+Theorem C17_source_merge_max_is_the_model : forall qs, gen_merge_max qs = merge_max qs.
+Proof. exact link_merge_max. Qed.
+Print Assumptions C17_source_merge_max_is_the_model.
+(* where the merge Add rule IS sound: two fixed-point operands with the same integer bits and signedness get exactly the
+   fixed-point adder's type, which holds every sum at the finest fraction -- stated about the regenerated code *)
+Theorem C17_code_merge_add_same_int_holds_sum : forall a b ka kb,
+  q_fp a = false -> q_fp b = false -> q_po2 a = false -> q_po2 b = false ->
+  q_int a = q_int b -> q_sgn a = q_sgn b -> 0 <= q_bits a -> 0 <= q_bits b -> 0 <= q_int a ->
+  0 <= mag_bits a -> 0 <= mag_bits b -> code_ok a ka -> code_ok b kb ->
+  let o := gen_merge_add [a; b] in
+  frac_bits o = Z.max (frac_bits a) (frac_bits b) /\
+  code_ok o (ka * 2 ^ (frac_bits o - frac_bits a) + kb * 2 ^ (frac_bits o - frac_bits b)).
+Proof. intros. unfold o. rewrite link_merge_add. apply merge_add_same_int_holds_sum; assumption. Qed.
+Print Assumptions C17_code_merge_add_same_int_holds_sum.
+(* the finding, stated about the regenerated code: with different integer bits the narrower operand's fraction bits are dropped *)
+Theorem C17_code_merge_add_refuted :
+  exists a b va vb, mem_type a va = true /\ mem_type b vb = true /\
+    mem_type (gen_merge_add [a; b]) (rnorm (radd va vb)) = false.
+Proof. destruct merge_add_refuted as [a [b [va [vb H]]]]. exists a, b, va, vb. rewrite link_merge_add. exact H. Qed.
+Print Assumptions C17_code_merge_add_refuted.
+Theorem C17_code_merge_of_identical_types : forall a, gen_merge_max [a; a] = a.
+Proof. intros. rewrite link_merge_max. apply merge_max_same. Qed.
+Print Assumptions C17_code_merge_of_identical_types.
